@@ -23,7 +23,8 @@ CfgsC10q == { MkCfg(dk, mr, rmu, TRUE, FALSE) : dk \in {FALSE}, mr \in {0, 2}, r
 \* --- C14: ConnState.  requests that exercise every edge of the state machine
 ReqsC14 == { MkReq("1.1", "none", "ok", FALSE), MkReq("1.1", "close", "ok", FALSE),
              MkReq("1.0", "none", "ok", FALSE), MkReq("1.1", "none", "bad", FALSE),
-             MkReq("1.1", "none", "hijack", FALSE), MkReq("1.1", "none", "ok", TRUE) }
+             MkReq("1.1", "none", "hijack", FALSE), MkReq("1.1", "none", "ok", TRUE),
+             MkReq("1.1", "none", "partial", FALSE) }
 CfgsC14base == { MkCfg(FALSE, mr, rmu, vs, FALSE) : mr \in {0, 2}, rmu \in BoolSet, vs \in BoolSet }
 CfgsC14 == CfgsC14base \cup { WithPerIP(c) : c \in CfgsC14base }
 
@@ -34,7 +35,7 @@ ReqsC17 == { MkReq("1.1", "none", "ok", FALSE), MkReq("1.1", "none", "hijack", F
              MkReq("1.1", "none", "hijack", TRUE), MkReq("1.1", "none", "nrflag", FALSE) }
 CfgsC17 == { MkCfg(dk, 0, rmu, vs, kh) : dk \in BoolSet, rmu \in BoolSet, vs \in BoolSet, kh \in BoolSet }
 
-Obs == [ cfg |-> cfg, batches |-> batches, clientClosed |-> cliClosed, states |-> states,
+Obs == [ cfg |-> cfg, batches |-> batches, clientClosed |-> cliClosed, clientStalled |-> cliStalled, states |-> states,
          resps |-> resps, disp |-> disp, srvClosed |-> srvClosed,
          hijacked |-> hij.on, hijRest |-> hij.rest,
          nreq |-> sentCount ]
